@@ -92,6 +92,51 @@ theorem eqv_normal : ∀ (xs ys : List Ext), (∀ e ∈ xs, e = ⟨0, 0⟩ ∨ e
         · cases x; cases y; simp_all
       rw [this, t]
 
+/-- the library's `==` against a list in normal form (a fixpoint of `collapse`, as every array reports) decides equality
+    with the collapsed requested extensions -/
+theorem eqv_collapse : ∀ (xs es : List Ext), collapse xs = xs → Exts.eqv xs es = true → collapse es = xs := by
+  intro xs
+  induction xs with
+  | nil => intro es _ h; cases es with | nil => rfl | cons _ _ => simp [Exts.eqv] at h
+  | cons x xs ih =>
+    intro es hfix h
+    cases es with
+    | nil => simp [Exts.eqv] at h
+    | cons e es =>
+      simp only [Exts.eqv, Bool.and_eq_true] at h
+      obtain ⟨h1, h2⟩ := h
+      simp only [collapse, List.cons.injEq] at hfix
+      obtain ⟨hfh, hft⟩ := hfix
+      have t := ih es hft h2
+      have hn : nElems es = nElems xs := by rw [← t, nElems_collapse]
+      simp only [collapse, List.cons.injEq]
+      refine ⟨?_, t⟩
+      simp only [Ext.eqv, Ext.isEmpty, Bool.or_eq_true, Bool.and_eq_true, beq_iff_eq] at h1
+      rcases h1 with ⟨e1, e2⟩ | ⟨e1, e2⟩
+      · have hx0 : x.size = 0 := by simp [Ext.size]; omega
+        have he0 : e.size = 0 := by simp [Ext.size]; omega
+        rw [hx0] at hfh; simp at hfh
+        rw [he0]; simp; exact hfh
+      · have : x = e := by cases x; cases e; simp_all
+        subst this
+        rw [hn]; exact hfh
+
+theorem Valid_exts_fix {es : List Ext} : collapse (collapse es) = collapse es := collapse_idem es
+
+theorem Ext.eqv_comm (p q : Ext) : p.eqv q = q.eqv p := by
+  simp only [Ext.eqv, Ext.isEmpty]
+  rw [Bool.and_comm, @BEq.comm _ _ _ p.first q.first, @BEq.comm _ _ _ p.last q.last]
+
+theorem eqv_comm : ∀ (xs ys : List Ext), Exts.eqv xs ys = Exts.eqv ys xs := by
+  intro xs
+  induction xs with
+  | nil => intro ys; cases ys <;> rfl
+  | cons p ps ih =>
+    intro ys
+    cases ys with
+    | nil => rfl
+    | cons q qs => simp only [Exts.eqv, ih qs, Ext.eqv_comm p q]
+
 theorem eqv_refl (xs : List Ext) : Exts.eqv xs xs = true := by
   induction xs with
   | nil => rfl
@@ -117,6 +162,10 @@ theorem Valid.exts_normal {h : Heap α} {a : Arr} (hv : Valid h a) : ∀ e ∈ a
 theorem Valid.exts_ok {h : Heap α} {a : Arr} (hv : Valid h a) : ExtsOK a.exts := by
   obtain ⟨es, hes, hl⟩ := hv.shape
   unfold Arr.exts; rw [hl, ofExts_exts hes]; exact collapse_ok hes
+
+theorem Valid.exts_fix {h : Heap α} {a : Arr} (hv : Valid h a) : collapse a.exts = a.exts := by
+  obtain ⟨es, hes, hl⟩ := hv.shape
+  unfold Arr.exts; rw [hl, ofExts_exts hes]; exact collapse_idem es
 
 theorem Valid.nElems_exts {h : Heap α} {a : Arr} (hv : Valid h a) : nElems a.exts = a.numElements := by
   obtain ⟨es, hes, hl⟩ := hv.shape
